@@ -210,6 +210,9 @@ def run(ctx):
     d = cc.run_correspondence(ctx, ctx.scale(300, 4000))
     ctx.stage('correspondence', run_diffs=d)
     real_trees(ctx, ctx.scale(60, 1200))
+    # files in legacy encodings with the real minifier: what is written is the complete UTF-8 result for the bytes read
+    from props import c16
+    c16.cli_matrix(ctx, c16.BODIES[1:3])
 
 
 def search(ctx):
